@@ -89,7 +89,7 @@ impl Property for C18 {
          pairs. non-trivial = a call to another queue unlinked >= 1 file while q retained records; distinct = \
          hash(q, concrete history). A deterministic campaign (16 / 256 variants) adds crafted content: a record of queue b whose \
          tail in the next WAL file is the byte image of an entry for queue a; b is truncated, the first file is collected, \
-         the log restarted; a must not change. Crash variants (histories run under Always(Flush|FlushAndFsync)): crash points are \
+         the log restarted; a must not change. Crash variants (histories run under Always(Flush|FlushAndFsync); under DoNothing only the existence of the other queues is compared): crash points are \
          ENUMERATED over the recorded I/O trace (every effect boundary + byte cuts) and every queue the in-flight call does \
          not address must recover exactly as after its own completed calls; non-trivial there = crash strictly inside a \
          call to another queue that unlinks files while q retains records."
@@ -231,7 +231,11 @@ impl Property for C18 {
         // to ANOTHER queue (notably between the unlinks of its GC), must leave q exactly as after q's completed calls
         let crash_variant = case.extra.as_ref().map_or(false, |extra| extra.get("crash").is_some())
             || case.words.first().map_or(false, |word| word % 3 == 0);
-        if matches!(case.policy, Policy::Always { .. }) && crash_variant {
+        // Under DoNothing only EXISTENCE is compared: what a queue holds after a crash then depends on what happened to be
+        // buffered, but a queue whose create_queue call completed (creation is persisted on return under every policy)
+        // cannot vanish because of calls addressed to other queues.
+        let existence_only = case.policy == Policy::DoNothing;
+        if (matches!(case.policy, Policy::Always { .. }) || existence_only) && crash_variant {
             let effects: Vec<Effect> = exec.effects().to_vec();
             let frames = exec.driver.tracer.frames.clone();
             let mut selection = Selection::standard(&case.words);
@@ -265,6 +269,7 @@ impl Property for C18 {
                 // queue gets one more record, and the log is restarted once more — what the torn call of one queue left
                 // behind must not make another queue's next record disappear.
                 let probe = ctx.class.strictly_inside_op()
+                    && !existence_only
                     && (selection.only.is_some() || mix(history_hash, hash64(&ctx.point)) % 4 == 0);
                 let mut probe_failure: Option<(String, String)> = None;
                 if probe {
@@ -324,6 +329,20 @@ impl Property for C18 {
                     }
                     let want: Option<QState> = expected.get(name).cloned().unwrap_or(None);
                     let got: Option<QState> = recovered.state.get(name).cloned();
+                    if existence_only {
+                        if want.is_some() && got.is_none() {
+                            return Err(exec.failure(
+                                format!("{where_} [DoNothing]: queue {name:?}, which the in-flight call does not address and whose creation had completed, does not exist after recovery"),
+                                "other-queue-vanished-after-crash",
+                                json!({"crash": {"k": ctx.point.k, "b": ctx.point.b}, "queue": name}),
+                            ));
+                        }
+                        if ctx.class.strictly_inside_op() && unlinks_in_call && want.is_some() {
+                            env.class("crash-inside-foreign-call-that-unlinks[DoNothing]");
+                            env.nontrivial(mix(history_hash, hash64(&(ctx.point, name))));
+                        }
+                        continue;
+                    }
                     if got != want {
                         return Err(exec.failure(
                             format!("{where_}: queue {name:?}, which the in-flight call does not address, recovers as {} but its own completed calls give {}",
